@@ -154,6 +154,9 @@ func (t *PageTree) loadPages() error {
 
 	// Start recursive traversal from root
 	if err := t.traversePageNode(t.root, nil); err != nil {
+		// Do not keep the partial list: the next call has to fail the same way
+		// instead of silently returning the pages found before the error
+		t.pages = nil
 		return fmt.Errorf("failed to traverse page tree: %w", err)
 	}
 
